@@ -336,8 +336,8 @@ func checkC04(p *Program, r *Report) {
 	}
 	r.Floor("R04.1", "vectorised wrappers", n, 41)
 	checkNoAppendOnShared(p, r, models)
-	r.Floor("R04.2", "write obligations discharged", r.PerRule["R04.2"][0], 40)
-	r.Floor("R04.3", "broadcast obligations discharged", r.PerRule["R04.3"][0], 100)
+	r.Floor("R04.2", "write obligations discharged", r.PerRule["R04.2"][0], 20)
+	r.Floor("R04.3", "broadcast obligations discharged", r.PerRule["R04.3"][0], 41)
 	r.Floor("R04.4", "table-parameter obligations", r.PerRule["R04.4"][0], 7)
 }
 
@@ -1154,5 +1154,5 @@ func checkNoAppendOnShared(p *Program, r *Report, models []*Model) {
 			}
 		}
 	}
-	r.Floor("R04.6", "kernel functions scanned", n, 45)
+	r.Floor("R04.6", "kernel functions scanned", n, 20)
 }
